@@ -578,9 +578,10 @@ def c18(run):
     for (V, E, und, comp, dot), outs in results:
         for args, rc, so in outs:
             rp = {"mode": "graph", "args": args}
-            if rc not in (0, 1):
+            if rc == 101 or rc < 0 or rc >= 128:
                 run.violation("graph:abnormal:%s" % ("complete" if comp else "plain"), "random_graph_gen %s ended with status %s" % (" ".join(args), rc), rp)
                 continue
+            rc = 0 if rc == 0 else 1       # any ordinary non-zero status is a refusal
             try:
                 edges = parse_edges(so, dot, und) if rc == 0 else []
             except ValueError as ex2:
